@@ -85,6 +85,9 @@ def dfs_configs(tier, retry=True, return_results=True):
     cfgs.append(dict(workers=2, inputs=3, extra=1, max_deaths=1, retry=retry, return_results=return_results, bare_eof=[0, 1]))
     cfgs.append(dict(workers=2, inputs=3, extra=0, max_deaths=0, retry=retry, return_results=return_results, poison=[1]))
     cfgs.append(dict(workers=2, inputs=3, extra=1, max_deaths=0, retry=retry, return_results=return_results, per_worker_callable=True))
+    # two runs on the same pool: the first one may fail (poison input kills every worker), fresh workers are added, second run
+    cfgs.append(dict(workers=1, inputs=2, extra=0, max_deaths=1, retry=retry, return_results=return_results, runs=2))
+    cfgs.append(dict(workers=2, inputs=2, extra=1, max_deaths=0, retry=retry, return_results=return_results, poison=[1], runs=2))
     if tier == 'thorough':
         cfgs.append(dict(workers=2, inputs=4, extra=1, max_deaths=1, retry=retry, return_results=return_results))
         cfgs.append(dict(workers=3, inputs=3, extra=0, max_deaths=1, retry=retry, return_results=return_results))
@@ -107,6 +110,8 @@ def walk_configs(tier, r, n, retry=True, return_results=True):
             cfg['refuse'] = [[r.randrange(w), r.randrange(inputs)] for _ in range(r.randint(1, 3))]
         if r.random() < 0.2:
             cfg['per_worker_callable'] = True
+        if r.random() < 0.25:
+            cfg['runs'] = 2
         cfgs.append(cfg)
     return cfgs
 
